@@ -24,19 +24,45 @@ def block_findings():
     out = ['**Repaired (one `fix:` commit each in /repo; the check passes on the repaired tree and reports the violation again if it returns):**', '', '| property | commit | commit subject | finding key(s) / what failed |', '|---|---|---|---|'] + fixed
     out += ['', '**Recorded known findings (the check prints KNOWN-FINDING for exactly these keys and exits 0; any other key is a VIOLATION):**', '', '| property | finding key | what fails and why it is not repaired |', '|---|---|---|'] + known
     return '\n'.join(out)
-def block_seeds():
-    rows = ['| seed | property-breaking change (written by an independent sub-agent) | what it needs to manifest | caught by (last recheck) | first finding keys | history |', '|---|---|---|---|---|---|']
-    for d in sorted(glob.glob(V + '/seeded/C*/')):
+def _seed_rows():
+    out = []
+    def keyf(d):
+        n = os.path.basename(d.rstrip('/')); a, b = n.split('-'); return (a, int(b))
+    for d in sorted(glob.glob(V + '/seeded/C*/'), key=keyf):
         name = os.path.basename(d.rstrip('/'))
         m = json.load(open(d + 'meta.json')) if os.path.exists(d + 'meta.json') else {}
-        rc = open(d + 'recheck.txt').read() if os.path.exists(d + 'recheck.txt') else (open(d + 'confirm.txt').read() if os.path.exists(d + 'confirm.txt') else '')
-        det = 'DETECTED' in rc
+        conf = open(d + 'confirm.txt').read() if os.path.exists(d + 'confirm.txt') else ''
+        rc = open(d + 'recheck.txt').read() if os.path.exists(d + 'recheck.txt') else conf
+        first = 'detected' if re.search(r'=> DETECTED', conf) else ('missed' if conf else 'n/a')
+        det = 'DETECTED' in rc.split('\n')[0] if rc else False
         keys = []
-        for k in re.findall(r'key=(\S+)', rc) + [os.path.basename(x)[:-5] for x in re.findall(r'replay=(\S+)', rc)]:
+        for k in re.findall(r'key=(\S+)', rc):
             if k not in keys: keys.append(k)
-        by = m.get('caught_by', name.split('-')[0])
-        rows.append('| %s | %s | %s | %s | %s | %s |' % (name, m.get('summary', '')[:300].replace('|', '/').replace('\n', ' '), m.get('needs_to_manifest', '')[:220].replace('|', '/').replace('\n', ' '), (by + ' quick' if det else '**not caught**'), ', '.join('`%s`' % k for k in keys[:2]), m.get('history', '')))
-    return '\n'.join(rows)
+        by = m.get('check_with') or m.get('caught_by') or name.split('-')[0]
+        out.append(dict(name=name, summary=m.get('summary', '').replace('|', '/').replace('\n', ' '), needs=m.get('needs_to_manifest', '').replace('|', '/').replace('\n', ' '),
+                        first=first, det=det, by=by, keys=keys, history=m.get('history', '').replace('|', '/').replace('\n', ' ')))
+    return out
+def block_seeds():
+    rows = _seed_rows()
+    n = len(rows); nd = sum(r['det'] for r in rows); nf = sum(r['first'] == 'detected' for r in rows)
+    # per round statistics (round = ceil(n/2))
+    rounds = {}
+    for r in rows:
+        k = (int(r['name'].split('-')[1]) + 1) // 2
+        a = rounds.setdefault(k, [0, 0]); a[0] += 1; a[1] += r['first'] == 'detected'
+    out = ['%d changes kept (%d properties, up to five rounds of two per property); **%d are reported by the current checks** (last re-check), %d were reported by the check as it stood when the change arrived. '
+           'First-attempt detection per round: %s. Full text of every change, what it needs to manifest and the widening it led to: `seeded/SUMMARY.md`, `seeded/<id>/`.' % (
+               n, len({r['name'].split('-')[0] for r in rows}), nd, nf, ', '.join('round %d: %d/%d' % (k, v[1], v[0]) for k, v in sorted(rounds.items()))), '',
+           '| seed | change (shortened) | first attempt | reported now by | first finding key |', '|---|---|---|---|---|']
+    for r in rows:
+        out.append('| %s | %s | %s | %s | %s |' % (r['name'], r['summary'][:150] + ('…' if len(r['summary']) > 150 else ''), r['first'], (r['by'] + ' quick') if r['det'] else '**not reported**', ('`%s`' % r['keys'][0][:110]) if r['keys'] else ''))
+    # full table
+    with open(V + '/seeded/SUMMARY.md', 'w') as f:
+        f.write('# Seeded property-breaking changes (written by independent sub-agents that saw only the property text) and what the checks report\n\n')
+        f.write('| seed | change | needs to manifest | first attempt | reported now by | finding keys | history |\n|---|---|---|---|---|---|---|\n')
+        for r in rows:
+            f.write('| %s | %s | %s | %s | %s | %s | %s |\n' % (r['name'], r['summary'], r['needs'], r['first'], (r['by'] + ' quick') if r['det'] else 'NOT REPORTED', ', '.join('`%s`' % k for k in r['keys'][:3]), r['history']))
+    return '\n'.join(out)
 blocks = {'status': block_status, 'findings': block_findings, 'seeds': block_seeds}
 p = V + '/DESIGN.md'
 s = open(p).read()
